@@ -238,6 +238,43 @@ def dynamic_part(res, ctx, names):
                     res.violation('c17-twin-rendering', f'{base} / {name} reported by one record with qualifier {q} and words '
                                   f'{[hex(x) for x in words]}: {a} vs {b}', {'name': name, 'start': words, 'end': words})
                     break
+        # companion records the kernel logs INSIDE the call under a name that extends the call's name (pread_extended_info,
+        # mmap_extended_info ...: the bundled table lists them; the kernel logs them under the BASE call's number for the
+        # non-cancellable variant too), their words taken from the call's own START words in every arrangement plus a few
+        # foreign ones: whatever a decoder makes of such a record, it makes of it for both twins
+        import itertools
+        table_names = set(ev.bundled_codes().values())
+        stems = {base, base.replace('BSC_sys_', 'BSC_', 1), base.replace('BSC_', 'BSC_sys_', 1)}
+        companions = sorted(n for n in table_names if n not in (base, name) and any(n.startswith(st + '_') for st in stems)
+                            and n in n2i and not n.endswith('_nocancel'))
+        for comp in companions:
+            start = domain.gen_words(rng, base, 'S')
+            end = [0] + domain.gen_words(rng, base, 'E')[1:]
+            arrangements = list(itertools.permutations(start, 4))
+            rng.shuffle(arrangements)
+            pool = arrangements[:ctx.pick(6, 24)] + [(start[0], start[2], rng.getrandbits(31), rng.getrandbits(32)),
+                                                      (start[0], start[1], rng.getrandbits(31), rng.getrandbits(32)),
+                                                      (start[0], start[2], 1, start[3]), (start[0], start[2], 0, start[3] ^ 0x10)]
+            for words in pool:
+                outcome = []
+                for nm in (base, name):
+                    seq = H.syscall(nm, start, end, [H.A(comp, H.NONE, tuple(words))])
+                    parser = ev.new_parser()
+                    try:
+                        outs = [str(t) for t in (parser.feed(e) for e in H.materialize(H.on_thread(6, seq)))
+                                if t is not None and t.ktraces[0].eventid == ev.eid(nm)]
+                        outcome.append(('ok', outs))
+                    except Exception as x:
+                        outcome.append(('raised', type(x).__name__))
+                res.case((name, 'companion', comp, tuple(words)))
+                res.count('twin_renderings_with_a_companion_record')
+                a, b = outcome
+                same = (a[0] == b[0] == 'raised' and a[1] == b[1]) or \
+                       (a[0] == b[0] == 'ok' and len(a[1]) == len(b[1]) == 1 and twin_texts_agree(a[1][0], b[1][0]))
+                if not same:
+                    res.violation('c17-twin-rendering', f'{base} / {name} with a nested {comp} record {[hex(w) for w in words]} '
+                                  f'(START {[hex(w) for w in start]}): {a} vs {b}', {'name': name, 'start': start, 'end': end})
+                    break
         # words outside the enum a decoder names: whatever happens must happen to both twins alike (the same exception,
         # or renderings that differ by the suffix only)
         for idx2, allowed in domain.enum_positions(base).items():
